@@ -1384,6 +1384,17 @@ PPL::Polyhedron::add_congruence(const Congruence& cg) {
 
 void
 PPL::Polyhedron::add_generator(const Generator& g) {
+  // `g' may be (a reference to) a row of `gen_sys' itself (e.g.,
+  // *generators().begin()): the lazy updates and the insertions below
+  // rewrite and reallocate those rows.  Work on a copy.
+  {
+    const dimension_type n = gen_sys.sys.rows.size();
+    if (n > 0 && &g >= &gen_sys.sys.rows[0] && &g <= &gen_sys.sys.rows[n-1]) {
+      const Generator g_copy(g);
+      add_generator(g_copy);
+      return;
+    }
+  }
   // Topology-compatibility check.
   if (g.is_closure_point() && is_necessarily_closed()) {
     throw_topology_incompatible("add_generator(g)", "g", g);
